@@ -3,10 +3,12 @@
  *          CONNCB | DISCCB | RECONCB <err>   the callbacks registered on the resolver's espconn (skipped when none is registered)
  *          RECV : <hex>                 recv callback on a heap copy of exactly that many bytes
  *          SENTRES <r>                  result of every following espconn_sent
+ *          CONNRES <r>                  result of every following espconn_connect (the link step wraps espconn_connect:
+ *                                       the shared double still records the call, this driver chooses the return value)
  *          ADV <us>                     virtual time passes, due timers fire in (due, arming order)
  *          DUMP                         print the resolver's state
  * outputs: CB 1 : <4 address bytes> | CB 0 :          one line per invocation of the result callback
- *          CONNECT <port> <t> : <ip>    espconn_connect (t = microseconds since boot)
+ *          CONNECT <port> <t> <r> : <ip>  espconn_connect (t = microseconds since boot, r = the value it returns)
  *          DISCONNECT <t> :             espconn_disconnect
  *          SENT <r> <t> : <bytes>       espconn_sent with a buffer;  SENTNULL <r> <len> <t> :  with a NULL buffer
  *          STATE <try_counter> <success> <cb pending> <request NULL> <request len> <timeout armed> <retry armed> : <result_ipv4> */
@@ -24,8 +26,12 @@
 static void on_result(ip_addr_t *ip) {
   if (ip) vout_hex("CB 1 : ", ip, 4); else vout("CB 0 :");
 }
+static int connect_res = 0;
+/* linked with -Wl,--wrap=espconn_connect: the resolver's calls land here */
+sint8 __real_espconn_connect(struct espconn *e);
+sint8 __wrap_espconn_connect(struct espconn *e) { __real_espconn_connect(e); return (sint8)connect_res; }
 static void on_connect(struct espconn *e) {
-  fprintf(stdout, "CONNECT %d %llu : ", e->proto.tcp ? e->proto.tcp->remote_port : -1, v_now);
+  fprintf(stdout, "CONNECT %d %llu %d : ", e->proto.tcp ? e->proto.tcp->remote_port : -1, v_now, connect_res);
   vout_hex("", e->proto.tcp ? e->proto.tcp->remote_ip : (uint8 *)"", e->proto.tcp ? 4 : 0);
 }
 static void on_disconnect(struct espconn *e) { (void)e; vout("DISCONNECT %llu :", v_now); }
@@ -66,6 +72,8 @@ static void run_case(int n, char **lines) {
       }
     } else if (strncmp(l, "SENTRES", 7) == 0) {
       v_sent_default = atoi(l + 7);
+    } else if (strncmp(l, "CONNRES", 7) == 0) {
+      connect_res = atoi(l + 7);
     } else if (strncmp(l, "ADV", 3) == 0) {
       long long us = atoll(l + 3); if (us < 0) us = 0;
       v_advance((unsigned long long)us);
